@@ -18,7 +18,11 @@ EXPLANATION = (
     "and no compiler reordering across the flag store); (3) in every function reachable from a "
     "parallel region through the call graph (dispatch slots resolved) every positioned stdio call "
     "(fseek/fread/ftell/...) on a stream lies inside an omp critical construct and each read is "
-    "preceded by its seek inside the same construct. Decides these clauses, not equality of batches "
+    "preceded by its seek inside the same construct; (4) every pointer handed inside a region to a callee "
+    "that writes through the corresponding parameter (transitively; memcpy/memset/fread destinations "
+    "included) is null, selected by the loop index, or private to the iteration (allocated or declared "
+    "inside the region) - a scratch buffer allocated once before the region and written by every worker "
+    "is reported. Decides these clauses, not equality of batches "
     "across thread counts nor races inside zlib/zstd/libgomp.")
 
 BR = "src/reader/batch_reader.c"
@@ -59,39 +63,69 @@ def _in_critical(n, stop=None):
     return False
 
 
+def _region_setup(reg, ri):
+    body = reg.kids()[-1]
+    # loop variable of the associated for
+    loop = body if body.k == "ForStmt" else None
+    if loop is None:
+        raise AnalysisBroken("parallel region %d is not a for loop" % ri)
+    lv = None
+    init = loop.c[0]
+    if init is not None:
+        for a in init.walk():
+            if is_assign(a) and a.c[0].strip().k == "DeclRefExpr":
+                lv = a.c[0].strip().get("d")
+            if a.k == "DeclStmt" and a.get("decls"):
+                lv = a.get("decls")[0].get("d")
+    if lv is None:
+        raise AnalysisBroken("cannot identify the loop variable of region %d" % ri)
+    local_decls = set()
+    for n in body.walk():
+        if n.k == "DeclStmt":
+            for d in n.get("decls", []):
+                if "d" in d:
+                    local_decls.add(d["d"])
+    return body, lv, local_decls
+
+
+def _per_iteration(lv):
+    def per_iteration(expr):
+        for x in expr.walk():
+            if x.k == "ArraySubscriptExpr":
+                for y in x.c[1].walk():
+                    if y.k == "DeclRefExpr" and y.get("d") == lv:
+                        return True
+        return False
+    return per_iteration
+
+
+def control_region_args(ctx, P, fname, relfile):
+    """Run the region-argument rule on one function of a control program."""
+    f = P.fn(fname)
+    cg = callgraph.get(P)
+    n = 0
+    for ri, reg in enumerate(_omp_regions(f)):
+        body, lv, local_decls = _region_setup(reg, ri)
+        na, nall = region_args(ctx, P, cg, f, reg, ri, body, local_decls, lv, _per_iteration(lv), relfile)
+        n += nall
+    return n
+
+
 def run(ctx):
     P = ctx.P
     ctx.clause("C07.1 writes inside parallel regions are private, per-iteration, monotone or protected")
     ctx.clause("C07.2 mutable file-scope state is thread-local or accepted idempotent lazy init (writer-restricted)")
     ctx.clause("C07.3 positioned I/O reachable from a region is inside omp critical, seek+read together")
+    ctx.clause("C07.4 memory handed to a callee inside a region for writing is private to the iteration")
     f = P.fn("carquet_batch_reader_next", BR)
     regions = _omp_regions(f)
     ctx.floor("C07 parallel regions", len(regions), 2)
     cg = callgraph.get(P)
     reach_all = set()
+    nargs_total = 0
 
     for ri, reg in enumerate(regions):
-        body = reg.kids()[-1]
-        # loop variable of the associated for
-        loop = body if body.k == "ForStmt" else None
-        if loop is None:
-            raise AnalysisBroken("parallel region %d is not a for loop" % ri)
-        lv = None
-        init = loop.c[0]
-        if init is not None:
-            for a in init.walk():
-                if is_assign(a) and a.c[0].strip().k == "DeclRefExpr":
-                    lv = a.c[0].strip().get("d")
-                if a.k == "DeclStmt" and a.get("decls"):
-                    lv = a.get("decls")[0].get("d")
-        if lv is None:
-            raise AnalysisBroken("cannot identify the loop variable of region %d" % ri)
-        local_decls = set()
-        for n in body.walk():
-            if n.k == "DeclStmt":
-                for d in n.get("decls", []):
-                    if "d" in d:
-                        local_decls.add(d["d"])
+        body, lv, local_decls = _region_setup(reg, ri)
         cz = Canon(f)
 
         def per_iteration(expr):
@@ -166,6 +200,10 @@ def run(ctx):
             else:
                 ctx.bad("R7.region-write", key, where, what,
                         "write through `%s` is not per-iteration, not region-local and not protected" % src(t)[:60])
+        na, nall = region_args(ctx, P, cg, f, reg, ri, body, local_decls, lv, per_iteration, BR)
+        ctx.count("region%d_pointer_args_classified" % ri, nall)
+        ctx.count("region%d_shared_pointer_args" % ri, na)
+        nargs_total += nall
         for (d, name), vals in flags.items():
             ctx.ob("R7.region-write", "region-flag|%s:%s|region%d|%s" % (BR, f.name, ri, name), P.where(reg),
                    "shared flag `%s` only ever receives one constant inside region %d (monotone)" % (name, ri),
@@ -182,6 +220,7 @@ def run(ctx):
         reach_all |= reach
         ctx.count("region%d_reachable_functions" % ri, len(reach))
     ctx.floor("C07 functions reachable from the regions", len(reach_all), 40)
+    ctx.floor("C07 writable pointer arguments classified inside the regions", nargs_total, 6)
 
     # ---- (3) positioned I/O reachable from the regions
     nio = 0
@@ -325,6 +364,175 @@ def run(ctx):
     ctx.floor("C07 mutable file-scope variables examined", ng, 6)
     ctx.assume("accepted lazy-initialisation idiom (g_dispatch, crc32_tables, g_cpu_info): concurrent first "
                "use stores identical values; assumes x86-TSO and no compiler reordering across the flag store")
+
+
+def region_args(ctx, P, cg, f, reg, ri, body, local_decls, lv, per_iteration, relfile):
+    """Writes through pointers handed to callees inside a parallel region. Returns (shared, classified)."""
+    na = nall = 0
+    for c in body.walk():
+        if c.k != "CallExpr" or not c.callee:
+            continue
+        g = cg.resolve(c.callee, f)
+        for ai, a in enumerate(c.args()):
+            if a is None or "*" not in (a.t or "") or a.cv == 0:
+                continue
+            pointee_const = _pointee_const(g.params[ai]["t"]) if g is not None and ai < len(g.params) else _pointee_const(a.t)
+            if pointee_const:
+                continue
+            nall += 1
+            cls, why = _arg_class(a, body, local_decls, lv, per_iteration)
+            if cls != "shared":
+                continue
+            w = _writes_through(P, cg, g, ai) if g is not None else ("%s()" % c.callee if c.callee in LIB_WRITES_ARG0 and ai == 0 else "")
+            na += 1
+            key = "region-arg|%s:%s|region%d|%s#%d" % (relfile, f.name, ri, c.callee, ai)
+            what = ("argument %d (`%s`) of %s inside parallel region %d points to memory shared by the workers; the callee "
+                    "does not write through it, or the call is protected" % (ai, src(a)[:50], c.callee, ri))
+            if not w or _in_critical(c, reg):
+                ctx.ok("R7.region-arg", key, P.where(c), what, "inside omp critical" if w else "read-only in the callee")
+            else:
+                ctx.bad("R7.region-arg", key, P.where(c), what,
+                        "%s; %s writes through parameter %d (%s)" % (why, c.callee, ai, w))
+    return na, nall
+
+
+LIB_WRITES_ARG0 = {"memcpy", "memset", "memmove", "fread", "strcpy", "strncpy", "snprintf", "sprintf"}
+ALLOCATORS = {"malloc", "calloc", "realloc", "aligned_alloc", "strdup"}
+
+
+def _pointee_const(t):
+    t = (t or "").strip()
+    if "*" not in t:
+        return False
+    head = t[:t.rindex("*")]
+    # the innermost pointee: `const T *` / `T const *`
+    return "const" in head.split("*")[-1]
+
+
+def _arg_class(a, body, local_decls, lv, per_iteration, depth=0):
+    """('private'|'iteration'|'shared', reason) of a pointer expression used inside the region."""
+    x = a.strip_casts()
+    if x is None or x.cv == 0:
+        return "private", "null"
+    if per_iteration(x):
+        return "iteration", "selected by the loop index"
+    if x.k == "ConditionalOperator":
+        r = [_arg_class(y, body, local_decls, lv, per_iteration, depth) for y in x.c[1:]]
+        bad = [z for z in r if z[0] == "shared"]
+        return bad[0] if bad else r[0]
+    if x.k == "CallExpr":
+        return ("private", "fresh allocation") if x.callee in ALLOCATORS else ("shared", "result of %s()" % x.callee)
+    if x.k == "UnaryOperator" and x.op == "&":
+        return _arg_class(x.c[0], body, local_decls, lv, per_iteration, depth)
+    if x.k == "BinaryOperator" and x.op in ("+", "-"):
+        return _arg_class(x.c[0], body, local_decls, lv, per_iteration, depth)
+    b = x
+    while b is not None and b.k in ("MemberExpr", "ArraySubscriptExpr"):
+        b = b.c[0].strip_casts() if b.c else None
+    if b is not None and b.k == "UnaryOperator" and b.op == "*":
+        b = b.c[0].strip_casts()
+    if b is None or b.k != "DeclRefExpr":
+        return "shared", "`%s`" % src(x)[:40]
+    if b.get("d") == lv:
+        return "iteration", "the loop variable"
+    if b.get("d") not in local_decls:
+        return "shared", "`%s` is declared outside the region" % b.name
+    if "*" not in (b.t or "") and "[" not in (b.t or "") or b is x and "[" in (b.t or ""):
+        return "private", "region-local object"
+    if depth > 4:
+        return "shared", "`%s`" % b.name
+    # a region-local pointer: every value it receives inside the region
+    vals = []
+    for n in body.walk():
+        if n.k == "DeclStmt":
+            for d, init_ in zip(n.get("decls", []), n.c):
+                if d.get("d") == b.get("d") and init_ is not None:
+                    vals.append(init_)
+        elif is_assign(n) and n.op == "=" and n.c[0].strip().k == "DeclRefExpr" and n.c[0].strip().get("d") == b.get("d"):
+            vals.append(n.c[1])
+    if not vals:
+        return "shared", "`%s` has no value inside the region" % b.name
+    for v in vals:
+        r = _arg_class(v, body, local_decls, lv, per_iteration, depth + 1)
+        if r[0] == "shared":
+            return "shared", "`%s` <- %s" % (b.name, r[1])
+    return "private", "region-local pointer"
+
+
+def _writes_through(P, cg, g, pi, seen=None):
+    """A short description of a write through parameter pi of g (directly or in a callee), or ''."""
+    seen = set() if seen is None else seen
+    if (g.key(), pi) in seen or pi >= len(g.params):
+        return ""
+    seen.add((g.key(), pi))
+    roots = {g.params[pi]["d"]}
+    # locals that alias the parameter (p2 = p + k, q = p->member is a different object: not followed)
+    changed = True
+    while changed:
+        changed = False
+        for n in g.body.walk():
+            if n.k == "DeclStmt":
+                for d, init_ in zip(n.get("decls", []), n.c):
+                    if init_ is not None and "*" in (d.get("t") or "") and d.get("d") not in roots and _rooted(init_, roots):
+                        roots.add(d.get("d"))
+                        changed = True
+            elif is_assign(n) and n.op == "=" and n.c[0].strip().k == "DeclRefExpr" and "*" in (n.c[0].t or "") \
+                    and n.c[0].strip().get("d") not in roots and _rooted(n.c[1], roots):
+                roots.add(n.c[0].strip().get("d"))
+                changed = True
+    for n in g.body.walk():
+        tgt = None
+        if is_assign(n):
+            tgt = n.c[0]
+        elif n.k == "UnaryOperator" and n.op in ("++", "--"):
+            tgt = n.c[0]
+        if tgt is not None:
+            t = tgt.strip()
+            if t.k in ("ArraySubscriptExpr", "MemberExpr") or (t.k == "UnaryOperator" and t.op == "*"):
+                if t.k == "MemberExpr" and not t.get("arrow"):
+                    inner = t.c[0].strip_casts()
+                    if inner.k == "DeclRefExpr":
+                        continue
+                if _rooted(t.c[0], roots):
+                    return "%s:%d `%s`" % (P.rel(g.file), n.l, src(n)[:50])
+    for c in g.calls():
+        for ai, a in enumerate(c.args()):
+            if a is None or "*" not in (a.t or "") or not _rooted(a, roots):
+                continue
+            h = cg.resolve(c.callee, g) if c.callee else None
+            if h is None:
+                if c.callee in LIB_WRITES_ARG0 and ai == 0:
+                    return "%s:%d %s()" % (P.rel(g.file), c.l, c.callee)
+                continue
+            if ai < len(h.params) and _pointee_const(h.params[ai]["t"]):
+                continue
+            w = _writes_through(P, cg, h, ai, seen)
+            if w:
+                return w
+    return ""
+
+
+def _rooted(e, roots):
+    """The pointer expression is the parameter (or an alias) itself, possibly offset - not a member loaded from it."""
+    x = e.strip_casts() if e is not None else None
+    while x is not None:
+        if x.k == "DeclRefExpr":
+            return x.get("d") in roots
+        if x.k == "BinaryOperator" and x.op in ("+", "-"):
+            x = x.c[0].strip_casts()
+        elif x.k == "UnaryOperator" and x.op == "&":
+            y = x.c[0].strip_casts()
+            if y.k == "ArraySubscriptExpr":
+                x = y.c[0].strip_casts()
+            elif y.k == "UnaryOperator" and y.op == "*":
+                x = y.c[0].strip_casts()
+            else:
+                return False
+        elif x.k == "ConditionalOperator":
+            return any(_rooted(y, roots) for y in x.c[1:])
+        else:
+            return False
+    return False
 
 
 def _guards(seek, read):
